@@ -102,3 +102,26 @@ Definition run_fixed1 (m : method) (g : list Q) (T : tensor) (extrapolate single
        | Some (i, c) => VL [VE c; VZ i]
        | None => go
        end.
+
+(* a history of calls on one object: one-point calls use _bracket_dim and its cache, calls with several
+   points use searchsorted and (repaired code, props/C15/fix_3.diff) leave the cache alone *)
+Fixpoint fixed1_calls (m : method) (g vs : list Q) (last : Z) (calls : list (list Q)) : list Q :=
+  match calls with
+  | [] => []
+  | pts :: r =>
+      match pts with
+      | [x] => let idx := bracket_dim g last x in
+               Qred (fixed1 m g idx x vs) :: fixed1_calls m g vs idx r
+      | _ => map (fun x => Qred (fixed1 m g (ssl g x) x vs)) pts ++ fixed1_calls m g vs last r
+      end
+  end.
+
+Definition run_fixed1_calls (m : method) (g : list Q) (T : tensor) (extrapolate : bool)
+           (calls : list (list Q)) : val :=
+  let vs := map leafval (children T) in
+  let go := vqs (fixed1_calls m g vs 0 calls) in
+  if extrapolate then go
+  else match oob_scan eps_fixed 0 [g] [concat calls] with
+       | Some (i, c) => VL [VE c; VZ i]
+       | None => go
+       end.
